@@ -8,7 +8,9 @@ def find_loops(fn):
     lp = fn.loops()
     out = []
     for h, body in sorted(lp.items()):
-        depth = sum(1 for h2, b2 in lp.items() if h2 != h and h in b2)
+        if sym.is_await_loop(fn, body):
+            continue
+        depth = sum(1 for h2, b2 in lp.items() if h2 != h and h in b2 and not sym.is_await_loop(fn, b2))
         out.append((h, body, depth))
     return out
 
@@ -18,6 +20,10 @@ OPAQUE = ("nexrad_decode::util::deserialize",)
 
 def enclosing(fn, head):
     return {h for h, b in fn.loops().items() if h != head and head in b}
+
+
+def _real_loops(fn):
+    return {h: b for h, b in fn.loops().items() if not sym.is_await_loop(fn, b)}
 
 
 def entry_env(prog, fn, head, models=None, args=None, opaque=()):
